@@ -379,6 +379,7 @@ inline void ReadMap(CodedInputStream& stream, std::unordered_map<TKey, TValue>& 
   uint64_t size;
   ReadInteger(stream, size);
 
+  value.clear();
   for (size_t i = 0; i < size; i++) {
     TKey k;
     ReadKey(stream, k);
